@@ -431,7 +431,16 @@ def run(tier):
             tabs_all = [zone_table(n, o) for n, o in zones]
             used = set(t['pre'] for t in tabs_all) | set(tr[2] for t in tabs_all for tr in t['trans'])
             vals = fb_values(tier, used)
-            chunks = [vals[i::NCPU * 4] for i in range(NCPU * 4)]
+            # all values of one zone / one offset are written by the SAME process, one after the other (what the
+            # writer answers must not depend on what it was asked before: winter first, then summer, and back)
+            import zlib
+            chunks = [[] for _ in range(NCPU * 4)]
+            for v in vals:
+                key = v.get('olson') or 'min%d' % v['min']
+                chunks[zlib.crc32(key.encode()) % len(chunks)].append(v)
+            for ch in chunks:
+                ch.sort(key=lambda v: (v.get('olson') or 'min%06d' % (v['min'] + 10000)))
+                ch.extend([v for v in ch if v.get('wall_kind') == 'ordinary'][:40])     # and the first ones once more
             with ctx.Pool(NCPU) as pool:
                 fb_cases = [c for ch in pool.map(_fb_chunk, chunks) for c in ch]
             fb_traces = [fb_cases[i:i + CHUNK] for i in range(0, len(fb_cases), CHUNK)]
